@@ -358,7 +358,11 @@ func genEvents(r *term.Rng, idx int) term.T {
 			ops = append(ops, term.C("OSub", term.Nat(h), term.I(p), term.L(rs...)))
 		case r.Chance(1, 12):
 			ls := []term.T{}
-			for k := r.Intn(4); k > 0; k-- {
+			k := r.Intn(4)
+			if r.Chance(1, 6) {
+				k = r.Range(9, 14) // more loggers than any small fixed buffer
+			}
+			for ; k > 0; k-- {
 				ls = append(ls, term.I(int64(100+len(ls))))
 			}
 			ops = append(ops, term.C("OInit", term.L(ls...)))
